@@ -21,7 +21,8 @@
 (* Item identity.  push(args...) is emplace-style: the item is T(args...).  *)
 (* The n-th push is made through the API form FormOf(n) (one argument,      *)
 (* several arguments, a ready-made item by copy, by move; rotation fixed by *)
-(* the constant FormShift), so the item it contributes is Item(n) =         *)
+(* the limit and the constant FormShift), so the item it contributes is     *)
+(* Item(n) =                                                                *)
 (* (arguments derived from n, constructor form).  The sequences below hold  *)
 (* n as shorthand for Item(n); the replay projection expands it, and what   *)
 (* sits in the queue / the blocked queue / a pop future must be exactly     *)
@@ -57,7 +58,7 @@ CONSTANTS Producers,       \* threads calling push()
           Fixed,           \* TRUE: current code, FALSE: code before fca2138
           MaxThrow,        \* bound on the number of push() calls whose item constructor throws
           ThrowAtHandover, \* TRUE: a throwing push may also meet a waiting consumer (repaired code only)
-          FormShift        \* rotation of the API forms over the pushes (0..3)
+          FormShift        \* rotation of the API forms over the pushes (0..3); the limit rotates them further
 
 ASSUME FormShift \in 0..3 /\ MaxThrow \in Nat /\ ThrowAtHandover \in BOOLEAN
 
@@ -80,7 +81,7 @@ vars == <<limit, items, waiters, blocked, fut, pfut, pc, hold, ret, withdrawn, n
 
 (* the public forms of push(); "copy"/"move" pass a ready-made item built from two / one argument(s) *)
 Forms == <<"one", "two", "copy", "move">>
-FormOf(n) == Forms[((n + FormShift) % 4) + 1]
+FormOf(n) == Forms[((n + limit + FormShift) % 4) + 1]
 Item(n) == [a |-> n, form |-> FormOf(n)]
 
 Threads == Producers \cup Consumers
